@@ -73,6 +73,97 @@ def near_name(rng, s):
     return s + "a"
 
 
+# Non-ASCII cased letters (C13/C14 exact model: the interpreter's full str.lower() table and the Final_Sigma rule).
+# upper / lower / title-case letters, one-to-many lower-casing (U+0130), ASCII image (U+212A), special upper-casing (U+00DF, U+0149), astral
+# (Deseret, Adlam), U+03A3 with its two lower-case forms, case-ignorable code points (apostrophe, U+00B7, U+0301, U+02B0 which is also cased).
+CASED = ["É", "é", "Ω", "ω", "Ǆ", "ǅ", "ǆ", "ẞ", "ß", "Σ", "σ", "ς", "İ", "ı", "K", "Å", "ŉ", "Ⅷ", "ⓐ", "Ⓐ", "𐐀", "𐐨", "𞤀", "Ａ", "ａ", "Ϊ", "ΐ", "ᾈ", "Ꙁ", "Ⴀ", "ⴀ", "Ა", "ა"]
+IGNORABLE = ["'", "·", "\u0301", "ʰ", ":", "\u00ad", "^", "`", "\u2019"]
+UNCASED = ["1", "١", "中", " ", "!", "\n", "/"]
+
+
+def rand_cased_name(rng, sigma=True):
+    """A string mixing ASCII segments, separator runs, non-ASCII cased letters and (with sigma) U+03A3 in final / medial / initial
+    position with case-ignorable code points around it."""
+    pool = CASED if sigma else [c for c in CASED if c != "Σ"]
+    out = []
+    for _ in range(rng.choice([1, 2, 2, 3, 4, 6])):
+        k = rng.random()
+        if k < 0.35: out.append(rng.choice(pool))
+        elif k < 0.5: out.append(rng.choice(SEGS))
+        elif k < 0.65: out.append("".join(rng.choice(SEPS) for _ in range(rng.choice([1, 1, 2, 3]))))
+        elif k < 0.8 and sigma: out.append(rng.choice(["", "a", "Ω", "1"]) + rng.choice(["", "'", "·", "."]) + "Σ" + rng.choice(["", "'", ".", "-", "\u0301"]) + rng.choice(["", "a", "Σ", "1", "É"]))
+        elif k < 0.9: out.append(rng.choice(IGNORABLE))
+        else: out.append(rng.choice(UNCASED))
+    return "".join(out)
+
+
+def respell_cased(rng, s):
+    """Another spelling that is equal after the per-character folding: other separator runs; a character replaced by a character with the
+    same str.lower() (its lower-casing when that is one character, or its swapcase when that lower-cases back)."""
+    out = []; i = 0
+    while i < len(s):
+        if s[i] in SEPS:
+            while i < len(s) and s[i] in SEPS: i += 1
+            out.append("".join(rng.choice(SEPS) for _ in range(rng.choice([1, 1, 2, 3]))))
+        else:
+            c = s[i]; i += 1
+            if rng.random() < 0.5:
+                cands = [d for d in (c.lower(), c.upper(), c.swapcase(), c.title()) if len(d) == 1 and d.lower() == c.lower()]
+                if cands: c = rng.choice(cands)
+            out.append(c)
+    return "".join(out)
+
+
+def lower_sweep_points(rng, n_random):
+    """Code points for the per-code-point sweep of the model's str.lower() tables: every code point the interpreter lower-cases to
+    something else, its image, its neighbours, the boundaries of the interpreter's cased / case-ignorable ranges as seen through
+    str.lower(), and a random sample.  Surrogates are left out (they do not survive the text transport)."""
+    pts = set()
+    for cp in range(128, 0x110000):
+        l = chr(cp).lower()
+        if l != chr(cp):
+            pts.update([cp - 1, cp, cp + 1]); pts.update(ord(x) for x in l)
+    prev = None
+    for cp in range(0x110000):
+        k = ("aΣ" + chr(cp)).lower()[1] + ("aΣ" + chr(cp) + "a").lower()[1]
+        if k != prev: pts.update([cp - 1, cp])
+        prev = k
+    pts.update(rng.randrange(0x110000) for _ in range(n_random))
+    return sorted(p for p in pts if 0 <= p < 0x110000 and not 0xD800 <= p <= 0xDFFF)
+
+
+def table_boundaries():
+    """Boundaries (lo-1, lo, hi, hi+1) of every range of the generated tables coq/Gen/WordTable.v and the Final_Sigma classes of
+    coq/Gen/LowerTable.v (read as text; the files exist once the build stage has run)."""
+    import os, re
+    gen = os.path.join(os.path.dirname(os.path.abspath(__file__)), "..", "coq", "Gen")
+    pts = set()
+    for f, names in (("WordTable.v", ["word_ranges", "digit_ranges"]), ("LowerTable.v", ["sig_cased_ranges", "sig_ign_ranges"])):
+        try: src = open(os.path.join(gen, f)).read()
+        except OSError: continue
+        for name in names:
+            m = re.search(r"Definition %s :[^\n]*:= \[(.*?)\n\]\." % name, src, re.S)
+            for t in re.findall(r"\(([0-9, ]+)\)", m.group(1) if m else ""):
+                lo, hi = [int(x) for x in t.split(",")][:2]
+                pts.update([lo - 1, lo, hi, hi + 1])
+    return sorted(p for p in pts if 0 <= p < 0x110000 and not 0xD800 <= p <= 0xDFFF)
+
+
+def category_sample(rng, per_cat, cats=("Nd", "Lu", "Ll", "Lt", "Lm", "Lo", "Nl", "No", "Mn", "Mc", "Me", "Pc", "Pd", "Sk", "Sm", "So", "Zs", "Cf", "Cn", "Co")):
+    """A sample of code points of each Unicode general category (as the harness interpreter classifies them; used only to pick inputs)."""
+    import unicodedata
+    by = {}
+    for cp in range(128, 0x110000):
+        if 0xD800 <= cp <= 0xDFFF: continue
+        c = unicodedata.category(chr(cp))
+        if c in cats: by.setdefault(c, []).append(cp)
+    out = []
+    for c in cats:
+        l = by.get(c, [])
+        out += l if len(l) <= per_cat else rng.sample(l, per_cat)
+    return out
+
+
 def exhaustive(alphabet, maxlen):
     for n in range(maxlen + 1):
         for t in itertools.product(alphabet, repeat=n):
